@@ -1,0 +1,53 @@
+//go:build verif
+
+package loader
+
+import (
+	"sort"
+
+	"github.com/f1bonacc1/process-compose/src/types"
+)
+
+// Exports for the external verification harness (build tag "verif").
+
+func VerifMergeProcess(base, override *types.ProcessConfig) (*types.ProcessConfig, error) {
+	return mergeProcess(base, override)
+}
+
+func VerifMergeProjects(base, override *types.Project) error { return mergeProjects(base, override) }
+
+// VerifEnvRoundTrip runs toEnvVarMap followed by toEnvVarSlice (the environment transformer's
+// conversion pair) on one list.
+func VerifEnvRoundTrip(env types.Environment) (keys []string, out types.Environment) {
+	m, _ := toEnvVarMap(env)
+	for k := range m {
+		keys = append(keys, k.(string))
+	}
+	sort.Strings(keys)
+	for k, v := range m {
+		out = append(out, k.(string)+"="+v.(string))
+	}
+	sort.Strings(out)
+	return keys, out
+}
+
+func VerifCloneReplicas(p *types.Project)              { cloneReplicas(p) }
+func VerifAssignDefaultProcessValues(p *types.Project) { assignDefaultProcessValues(p) }
+func VerifRenderTemplates(p *types.Project) error      { return renderTemplates(p) }
+func VerifCopyWorkingDirToProbes(p *types.Project)     { copyWorkingDirToProbes(p) }
+
+func VerifValidateNoCircularDependencies(p *types.Project) error {
+	return validateNoCircularDependencies(p)
+}
+func VerifValidateDependencyIsEnabled(p *types.Project) error {
+	return validateDependencyIsEnabled(p)
+}
+func VerifValidateHealthDependencyHasHealthCheck(p *types.Project) error {
+	return validateHealthDependencyHasHealthCheck(p)
+}
+
+// VerifLoadProjectFromFile runs the single-file loader (expansion/escaping included).
+func VerifLoadProjectFromFile(file string, disableDotenv bool) (*types.Project, error) {
+	opts := &LoaderOptions{IsInternalLoader: true, disableDotenv: disableDotenv}
+	return loadProjectFromFile(file, opts)
+}
